@@ -94,9 +94,9 @@ theorem readLit_variantLiteral (isRust : Bool) (t : CTy) (hint : t.isFloat = fal
   all_goals first
     | (have hw : wrap64 v = v := BindgenModel.CExpr.wrap64_eq' v (by omega) (by omega)
        simp [extractVal, CTy.signed, variantLiteral, readLit, hw, readInt_printInt]; done)
-    | (have hm : v % 18446744073709551616 = v := Int.emod_eq_of_lt (by omega) (by omega)
+    | (have hm : ∀ m : Int, v < m → v % m = v := fun m hlt => Int.emod_eq_of_lt (by omega) hlt
        have hn : ((v.toNat : Nat) : Int) = v := Int.toNat_of_nonneg (by omega)
-       simp [extractVal, CTy.signed, variantLiteral, readLit, hm, readInt_printNat, hn])
+       simp (disch := omega) [extractVal, CTy.signed, CTy.bits, variantLiteral, readLit, hm, readInt_printNat, hn])
 
 theorem extractVal_inj (t : CTy) (hint : t.isFloat = false) (a b : Int)
     (ha : t.holds a = true) (hb : t.holds b = true) (h : extractVal t a = extractVal t b) : a = b := by
